@@ -259,6 +259,9 @@ func isDynamicType(ctx context.Context, tc *typeComponent) (bool, error) {
 	}
 }
 
+// maxEmptyElementCount is the largest dynamic array of elements that have an empty encoding which will be decoded
+const maxEmptyElementCount = 65536
+
 func decodeABIDynamicArrayBytes(ctx context.Context, breadcrumbs string, block []byte, dataOffset int, component *typeComponent) (cv *ComponentValue, err error) {
 	arrayLength, err := decodeABILength(ctx, breadcrumbs, block, dataOffset)
 	if err != nil {
@@ -277,6 +280,11 @@ func decodeABIDynamicArrayBytes(ctx context.Context, breadcrumbs string, block [
 			block, dataStart, dataOffset, component.arrayChild)
 		if err != nil {
 			return nil, err
+		}
+		if childHeadBytes == 0 && arrayLength > maxEmptyElementCount {
+			// Elements with an empty encoding (T[0], empty tuples) consume no data, so nothing else bounds the count:
+			// it must not drive the work done and the memory used from a single word of the input
+			return nil, i18n.NewError(ctx, signermsgs.MsgABIArrayCountTooLarge, fmt.Sprint(arrayLength), breadcrumbs)
 		}
 		cv.Children = append(cv.Children, child)
 		dataOffset += childHeadBytes
